@@ -38,3 +38,8 @@ package types
 //@ trusted go-ethereum abi.Arguments.Pack
 //@ ensures [ok-iff] (err == nil) <==> ackPackOK(ack)
 //@ ensures [packed] err == nil ==> result == ackPack(ack) && result != nil
+
+// the commitment of a packet is the SHA-256 of its ABI encoding and of nothing else (C19, C02): no hidden state
+// verif:func CommitPacket
+//@ ensures [hash-of-the-packed-packet] result1 == nil ==> result0 == CommitAcknowledgement(first(packet.ABIPack()))
+//@ ensures [fails-iff-packing-fails] (result1 == nil) <==> (errof(packet.ABIPack()) == nil)
